@@ -490,6 +490,18 @@ func runCase(c Case, ctx *hx.Ctx) *hx.Failure {
 			time.Sleep(200 * time.Microsecond)
 		}
 		if n := env.DialsStarted() - env.DialsCancelled() - env.DialsFinished(); n > 0 {
+			// Close has returned, so a cancelled dial context is already closed: a dial goroutine that is still
+			// parked in its select was not cancelled; one that is merely waiting for the CPU was.
+			parked := 0
+			for _, g := range quiesce.With("tx.(*Env).Dial") {
+				if g.Parked() {
+					parked++
+				}
+			}
+			if parked == 0 {
+				ctx.Class("inconclusive:dial-goroutines-not-scheduled")
+				return nil
+			}
 			return hx.Failf("C07/dial-not-cancelled", "engine=%s: %d dial(s) are still blocked after Close (their context was not cancelled)", c.Engine, n)
 		}
 	}
